@@ -27,6 +27,7 @@ var (
 const (
 	wildcardFieldPath = "*"
 	fieldPathSep      = "."
+	contentTypeSSE    = "text/event-stream"
 )
 
 var (
@@ -119,7 +120,7 @@ func (t *StandardTranscoder) Bind(req HTTPRequest) (HTTPRequestTranscoder, HTTPR
 	if !ok {
 		responseMarshaler = requestMarshaler
 
-		if slices.Contains(req.RawRequest.Header[acceptHeader], "text/event-stream") {
+		if slices.Contains(req.RawRequest.Header[acceptHeader], contentTypeSSE) {
 			isSSE = true
 		}
 	}
@@ -328,7 +329,13 @@ func (t *standardResponseTranscoder) transcodeFunc(protomsg proto.Message, f fun
 }
 
 func (t *standardResponseTranscoder) ContentType(_ proto.Message) (mime string, binary bool) {
-	return t.marshaler.ContentType()
+	mime, binary = t.marshaler.ContentType()
+	if t.isSSE {
+		// SSE clients (EventSource) only accept responses served as text/event-stream.
+		mime = contentTypeSSE
+	}
+
+	return mime, binary
 }
 
 // standardRequestStreamTranscoder is a wrapper around [standardRequestTranscoder] for marshalers supporting streaming.
